@@ -204,11 +204,18 @@ CHECKS.update({
                 "Proved in Coq: ids are consumed before creation and never reused, the writer's file is always the newest hint-less "
                 "file, a stale writer rolls over before appending (fault-free model); and the restart half of the property for "
                 "set/delete/reopen - what a failed operation leaves on disk is a crash image of its trace, and every crash image "
-                "recovers all earlier operations and the failed one entirely or not (from C03). The fault-aware engine model "
-                "(behaviour of the running process after an error) is not built.",
+                "recovers all earlier operations and the failed one entirely or not (from C03); a failed unlink in the merge's cleanup "
+                "leaves a statistics row for every file on disk (repaired order; pinned order refuted). For the RUNNING process: after a "
+                "put or delete whose append failed (or whose replacement of the active file failed) every later answer of every "
+                "script is the map's answer with the failed operation not applied; the record that may still sit whole in the write "
+                "buffer is dropped by the next put, delete or merge and written out by a clean close, after which the operation has "
+                "taken effect (theorems C20_continue_after_failed_write / _append, model step_r). That model is compared with the real "
+                "store on every sweep case in which the fault hit the data write of a set or delete (results, index, counters in the "
+                "running process, everything after the restart). Not modelled: the running process after a failed fsync or rollover "
+                "behind a completed append, or after a merge pass that failed half-way (sweep only).",
         "design_ref": "DESIGN.md section 8, C20", "note": "Faults are all-or-nothing per call, one per run. The injector sees libc "
-                "calls on *.bitcask.* files. Theorems cover the id discipline and the restart half; the in-process half is enumeration only.",
-        "technique": "exhaustive single-fault injection (LD_PRELOAD) + Coq proof of the id discipline and of restart-after-fault (via crash images)",
+                "calls on *.bitcask.* files. Theorems cover the id discipline, the restart half, and the in-process half for failed appends / creates; the other in-process faults are enumeration only.",
+        "technique": "exhaustive single-fault injection (LD_PRELOAD) + Coq proof of the id discipline, of restart-after-fault (via crash images) and of the running process after a failed append (refinement with a pending operation), the latter tied to the code by correspondence",
         "category": "fault_enumeration",
     },
     "C04": {
